@@ -123,9 +123,19 @@ def apply_state(env, vals_by_hash, prev_stored, prev_locks, stored, locks, rng):
                 raise HarnessError('C15 harness: could not take lock %s' % h)
             if new == 'failed' and not lock.fail():
                 raise HarnessError('C15 harness: could not mark lock %s failed' % h)
-    if env.backend == 'filepack' and rng.random() < 0.6:
-        s.update_pack()
+    packed = None
+    if env.backend == 'filepack' and rng.random() < 0.7:
+        if rng.random() < 0.5:
+            s.update_pack()
+            packed = 'update_pack()'
+        else:
+            packed = 'jug pack'
     env.finish_with(s)
+    if packed == 'jug pack':                       # the real command, through main()
+        code, out, err = call_main(['pack', env.jugfile, '--jugdir', env.jugdir_arg()])
+        if code not in (None, 0, 'no-exit') or 'Packed' not in out:
+            raise HarnessError('C15 harness: jug pack failed: %r %s %s' % (code, out[-200:], err[-200:]))
+    return packed
 
 
 # ---------------------------------------------------------------------------- parsing
@@ -227,7 +237,7 @@ def spec_tables(otasks, h_of, stored, locks):
 
 # ---------------------------------------------------------------------------- one jugfile, one history
 def run_history(spec, backend, root, rng, short):
-    env = G.Env(backend, root, 'h')
+    env = G.Env(backend, root, 'h', bool(spec.get('setdir')))
     with open(env.jugfile, 'w') as fh:
         fh.write(G.jugfile_text(spec))
     G.write_salts(root, {})
@@ -243,6 +253,9 @@ def run_history(spec, backend, root, rng, short):
     h_of = dict((o[0], i[0]) for o, i in zip(otasks, info))
     vals = G.evaluate(spec, {})
     vals_by_hash = dict((h_of[t], v) for t, v in vals.items())
+    for h in sorted(vals_by_hash):
+        if rng.random() < 0.3:                      # status and check must not care what the value is
+            vals_by_hash[h] = rng.choice([None, None, None, 0, False, '', [], {}, ()])
     foreign = ['%040x' % rng.getrandbits(160) for _ in range(rng.choice([0, 0, 1]))]
     hist = gen_history(rng, [i[0] for i in info], foreign)
     cache_file = os.path.join(root, 'status-cache.sqlite3')
@@ -250,9 +263,10 @@ def run_history(spec, backend, root, rng, short):
     steps = []
     prev_stored, prev_locks = [], {}
     for stored, locks in hist:
-        apply_state(env, vals_by_hash, prev_stored, prev_locks, stored, locks, rng)
+        packed = apply_state(env, vals_by_hash, prev_stored, prev_locks, stored, locks, rng)
         prev_stored, prev_locks = stored, locks
-        o = {'stored': stored, 'locks': sorted(locks.items())}
+        o = {'stored': stored, 'locks': sorted(locks.items()), 'packed': packed,
+             'none_stored': sorted(h for h in stored if vals_by_hash.get(h) is None)}
         before = env.raw()
         env.activate()
         code, out, err = call_main(['status', env.jugfile] + base)
@@ -260,14 +274,20 @@ def run_history(spec, backend, root, rng, short):
         if short:
             code, out, err = call_main(['status', env.jugfile, '--short'] + base)
             o['short'] = {'exit': code, 'line': parse_short(out), 'text': out[-300:]}
-        code, out, err = call_main(['status', env.jugfile, '--cache', '--cache-file', cache_file] + base)
-        o['cached'] = {'exit': code, 'table': parse_table(out), 'text': out[-1500:], 'err': err[-300:],
-                       'refused': (code == 1 and 'Could not build dependency graph' in err)}
-        try:
-            o['db'] = read_cache(cache_file)
-        except Exception as ex:
+        if env.setdir:
+            # not compared: in update mode the cached command never loads the jugfile and reads the --jugdir store
+            # (backends.select(options.jugdir)), not the one the jugfile selected - see the report
+            o['cached'] = {'exit': None, 'table': None, 'text': '', 'err': '', 'refused': False, 'skipped': True}
             o['db'] = None
-            o['db_error'] = '%s: %s' % (type(ex).__name__, str(ex)[:200])
+        else:
+            code, out, err = call_main(['status', env.jugfile, '--cache', '--cache-file', cache_file] + base)
+            o['cached'] = {'exit': code, 'table': parse_table(out), 'text': out[-1500:], 'err': err[-300:],
+                           'refused': (code == 1 and 'Could not build dependency graph' in err), 'skipped': False}
+            try:
+                o['db'] = read_cache(cache_file)
+            except Exception as ex:
+                o['db'] = None
+                o['db_error'] = '%s: %s' % (type(ex).__name__, str(ex)[:200])
         code, out, err = call_main(['check', env.jugfile] + base)
         o['check'] = code
         o['store_changed'] = (env.raw() != before)
@@ -289,6 +309,8 @@ def oracle(info, otasks, h_of, steps):
         stored, locks = set(o['stored']), dict(o['locks'])
         rows, total = spec_tables(otasks, h_of, stored, locks)
         for mode in ('plain', 'cached'):
+            if mode == 'cached' and o['cached']['skipped']:
+                continue
             t = o[mode]['table']
             if mode == 'cached' and (o['cached']['refused'] or not in_order):
                 if not (o['cached']['refused'] and not in_order):
@@ -343,8 +365,9 @@ Definition centry_eqb (a b : centry) : bool :=
   Pos.eqb (ce_name a) (ce_name b) && Pos.eqb (ce_hash a) (ce_hash b) &&
   ostat_eqb (ce_status a) (ce_status b) && list_eqb Nat.eqb (ce_deps a) (ce_deps b).
 (* one state of the history: stored keys, locks, plain table, cached call (None: it exited 1 with
-   "Could not build dependency graph!", else its table and the cache file afterwards), check *)
-Definition step := (list tid * list (tid * lockst) * table * option (table * cache_db) * nat)%type.
+   "Could not build dependency graph!", else its table and the cache file afterwards; outer None: the
+   cached command was not run at this state), check *)
+Definition step := (list tid * list (tid * lockst) * table * option (option (table * cache_db)) * nat)%type.
 Fixpoint run_hist (d : dag) (file : option cache_db) (h : list step) : bool :=
   match h with
   | [] => true
@@ -353,11 +376,15 @@ Fixpoint run_hist (d : dag) (file : option cache_db) (h : list step) : bool :=
       let lk := lk_of lkl in
       check_table d (status_events d st lk) plain &&
       Nat.eqb (check d st) chk &&
-      match cached_call d file st lk, cobs with
-      | None, None => run_hist d file r
-      | Some (ev, db'), Some (cached, db_obs) =>
-          check_table d ev cached && list_eqb centry_eqb db' db_obs && run_hist d (Some db') r
-      | _, _ => false
+      match cobs with
+      | None => run_hist d file r
+      | Some co =>
+          match cached_call d file st lk, co with
+          | None, None => run_hist d file r
+          | Some (ev, db'), Some (cached, db_obs) =>
+              check_table d ev cached && list_eqb centry_eqb db' db_obs && run_hist d (Some db') r
+          | _, _ => false
+          end
       end
   end.
 Definition run_case (c : dag * list step) : bool := wf_dagb (fst c) && run_hist (fst c) None (snd c).'''
@@ -402,8 +429,10 @@ def case_lit(info, steps):
         p = table(o['plain'])
         if p is None or o['check'] not in (0, 1):
             return None, ids, nids
-        if o['cached']['refused']:
+        if o['cached']['skipped']:
             cobs = 'None'
+        elif o['cached']['refused']:
+            cobs = '(Some None)'
         else:
             c = table(o['cached'])
             if c is None or o['db'] is None or any(n not in nids for n, _, _, _ in o['db']):
@@ -411,7 +440,7 @@ def case_lit(info, steps):
             db = '[' + ';'.join('(%d,%d,%s,%s)' % (nid(n), hid(h), 'None' if s is None else '(Some %s)' % s,
                                                     '[' + ';'.join(natlit(j) for j in dl) + ']')
                                 for n, h, s, dl in o['db']) + ']'
-            cobs = '(Some (%s, %s))' % (c, db)
+            cobs = '(Some (Some (%s, %s)))' % (c, db)
         lk = '[' + ';'.join('(%d,%s)' % (hid(h), 'Failed' if v == 'failed' else 'Held') for h, v in o['locks']) + ']'
         lits.append('(%s, %s, %s, %s, %s)' % (plist(hid(h) for h in o['stored']), lk, p, cobs, natlit(o['check'])))
     return '(%s, [%s])' % (dag, ';\n   '.join(lits)), ids, nids
@@ -423,7 +452,8 @@ def summarize(steps):
     for o in steps:
         s = {'stored': o['stored'], 'locks': o['locks'], 'check': o['check'],
              'plain': {'exit': o['plain']['exit'], 'table': o['plain']['table']},
-             'cached': {'exit': o['cached']['exit'], 'table': o['cached']['table'], 'refused': o['cached']['refused']}, 'db': o['db']}
+             'cached': {'exit': o['cached']['exit'], 'table': o['cached']['table'], 'refused': o['cached']['refused'], 'skipped': o['cached']['skipped']}, 'db': o['db'],
+             'packed': o['packed'], 'none_stored': o['none_stored']}
         if 'short' in o:
             s['short'] = o['short']
         out.append(s)
@@ -487,6 +517,13 @@ def run(ck):
                     ck.count('calls')
                 ck.distinct(lit, ncols >= 3)
                 ck.count('backend:%s' % backend)
+                if spec.get('setdir'):
+                    ck.count('jugfile selects its store with jug.set_jugdir (--jugdir names another location; cached call not run)')
+                for o in steps:
+                    if o['packed']:
+                        ck.count('state packed by %s' % o['packed'])
+                        if o['none_stored']:
+                            ck.count('packed state holding a result that is None')
                 ck.count('history length %d' % len(steps))
                 if not closed_all:
                     ck.count('history with a state that is not dependency-closed')
